@@ -69,8 +69,10 @@ struct Table {
 // parses the two lists of the README's "Message handling" section
 Table readme_table() {
 	Table t;
-	std::ifstream f("/repo/README.md");
-	if (!f) { t.problem = "cannot read /repo/README.md"; return t; }
+	const char *repo = getenv("VERIF_REPO");
+	std::string path = std::string(repo && *repo ? repo : "/repo") + "/README.md";
+	std::ifstream f(path);
+	if (!f) { t.problem = "cannot read " + path; return t; }
 	std::string line;
 	int section = 0;
 	while (std::getline(f, line)) {
